@@ -244,17 +244,70 @@ def slc3(ctx: Ctx) -> None:
     ctx.R.saw(mod, "get_true_caller")
     im = mod.fn("get_true_caller.is_mine")
     p = im.args.args[0].arg
-    ret = [s for s in im.body if isinstance(s, ast.Return)]
     own, tests = f"{p}.startswith('{PKG}.')", f"{p}.startswith('{PKG}._tests.')"
+    from ..stepper import Stepper, enumerate_table
+    from ..emit import Unsupported
+    import copy as _copy
+    ibody = _copy.deepcopy([x for x in im.body if not (isinstance(x, ast.Expr) and isinstance(x.value, ast.Constant))])
+
+    from ..util import fold_str
+
+    class FoldArgs(ast.NodeTransformer):
+        """X.startswith(<expression that folds to a string>) -> X.startswith('<that string>')"""
+        def visit_Call(self, c: ast.Call):
+            self.generic_visit(c)
+            if isinstance(c.func, ast.Attribute) and c.func.attr == "startswith" and len(c.args) == 1 and not isinstance(c.args[0], ast.Constant):
+                v = fold_str(mod, c.args[0])
+                if isinstance(v, str):
+                    c.args[0] = ast.copy_location(ast.Constant(value=v), c.args[0])
+            return c
+    ibody = [FoldArgs().visit(x) for x in ibody]
+
+    def run_im(assign):
+        st = Stepper(assign)
+        st.on_loop = lambda loop, env: None
+        k, v = st.run(ibody, {})
+        if k == "return" and v is not None:
+            return st.truth(v)
+        return None
+
+    verdict = None
     try:
-        ok, cex = equivalent(ret[0].value, lambda e: e[own] and not e[tests], [own, tests])
-    except (AnalysisError, IndexError) as ex:
-        ok, cex = False, str(ex)
-    if ok:
+        import re as _re
+
+        def _lit(a: str) -> Optional[str]:
+            m_ = _re.fullmatch(_re.escape(p) + r"\.startswith\('([^']*)'\)", a)
+            return m_.group(1) if m_ else None
+
+        def feasible(assign: Dict[str, bool]) -> bool:
+            # startswith('ab') implies startswith('a')
+            lits = {a: _lit(a) for a in assign if _lit(a) is not None}
+            for a, la in lits.items():
+                if assign[a]:
+                    for b, lb in lits.items():
+                        if b != a and la.startswith(lb) and not assign[b]:
+                            return False
+            return True
+        atoms_, rows_ = enumerate_table(run_im, [own, tests], feasible=feasible)
+        understood = all(_lit(a) is not None for a in atoms_)
+        groups_: Dict[tuple, list] = {}
+        for assign, out in rows_:
+            want = assign[own] and not assign[tests]
+            groups_.setdefault((assign[own], assign[tests]), []).append((assign, out, out is not None and bool(out) == want))
+        allbad = [lst[0] for lst in groups_.values() if all(not r[2] for r in lst)]
+        somebad = [r for lst in groups_.values() for r in lst if not r[2]]
+        if somebad and understood:
+            allbad = allbad or [somebad[0]]  # every atom is a prefix test on the same name: each feasible row is a real module name
+        verdict = ("fail", allbad[0]) if allbad else (("undecided", somebad[0]) if somebad else ("ok", None))
+    except (Unsupported, AnalysisError) as ex:
+        verdict = ("undecided", str(ex))
+    if verdict[0] == "ok":
         ctx.R.ok("SLC-3", f"a frame is stackscope's own iff its module name starts with '{PKG}.' and not with '{PKG}._tests.'")
+    elif verdict[0] == "fail":
+        ctx.R.fail("SLC-3", mod, im, f"is_mine must hold exactly for modules under '{PKG}.' other than '{PKG}._tests.': otherwise stackscope's own frames leak into results, or callers' frames are dropped; "
+                   f"counterexample {verdict[1][0]} -> {verdict[1][1]}", construct="is_mine predicate")
     else:
-        ctx.R.fail("SLC-3", mod, im, f"is_mine must hold exactly for modules under '{PKG}.' other than '{PKG}._tests.': otherwise stackscope's own frames leak into results, or callers' frames are dropped; {cex}",
-                   construct="is_mine predicate")
+        ctx.R.undecided("SLC-3", f"is_mine is computed in a way the rule cannot follow (a memo, a helper): {str(verdict[1])[:120]}")
     loops = [s for s in fn.body if isinstance(s, ast.While)]
     okl = False
     if len(loops) == 1:
